@@ -104,7 +104,7 @@ def _ops(case):
 
 TRIGGERS = {
     # non-termination in programs that combine a diagonal with an inflation / take (over-approximation, DESIGN.md section 7)
-    'inflate-diagonalize-interplay': lambda case, v: 'diagonalize' in _ops(case) and bool({'inflate', 'take'} & set(_ops(case))),
+    'inflate-diagonalize-interplay': lambda case, v: 'diagonalize' in _ops(case) and bool({'inflate', 'take', 'concat', 'stack'} & set(_ops(case))),
 }
 
 MANIFEST = dict(
